@@ -811,6 +811,7 @@ func c11ScaleSuite(r *Result, rng *rand.Rand, tier string) {
 }
 
 func init() {
+	register("C11", c11ScaleSuite) // hundreds / thousands of parents
 	replayers["C11/scale"] = func(r *Result, input json.RawMessage) {
 		var sc c11ScaleCase
 		if err := json.Unmarshal(input, &sc); err != nil {
